@@ -109,7 +109,9 @@ def fattrs(rng):
 
 
 def cdata(rng):
-    return "<![CDATA[" + rng.choice(["x", "<b>", "]]", "]", "]>", "", "</svg>", "<textarea>", "a]]b", "<!--"]) + "]]>"
+    # the opener is case-sensitive in the standard: a differently spelled one is a bogus comment
+    opener = "<![CDATA[" if rng.random() < 0.85 else rng.choice(["<![cdata[", "<![CData[", "<![CDATA ["])
+    return opener + rng.choice(["x", "<b>", "]]", "]", "]>", "", "</svg>", "<textarea>", "a]]b", "<!--"]) + "]]>"
 
 
 def html_inside(rng, depth, inline_only=False):
